@@ -17,7 +17,7 @@ RULE = ("cases: PSD matrices {full rank with prescribed spectrum, numerically lo
         "accepted); trace(R_j) non-increasing; exact at r = n; the library's own residual diagonal (pchol.iter hook) equals diag(R_j); early "
         "stop only if every member's trace(R_r) / max diag(A) <= error_tol; pivots a permutation per member. preconditioner: "
         "closure(V) = (L L^T + D)^-1 V, closure symmetric positive definite, logdet = log|L L^T + D|, dense value of the returned operator "
-        "= L L^T + D. distinct key = (clause, matrix family / operator class, rank relative to n, error_tol, dtype, batch rank) [added: non-constant diagonals shared by all batch members, DiagLinearOperators with equal entries (constant-diagonal fast path, value != 1)]")
+        "= L L^T + D. distinct key = (clause, matrix family / operator class, rank relative to n, error_tol, dtype, batch rank) [added: non-constant diagonals shared by all batch members, DiagLinearOperators with equal entries (constant-diagonal fast path, value != 1)] [round 4: entry points operator.pivoted_cholesky / linear_operator.pivoted_cholesky(operator) / linear_operator.pivoted_cholesky(tensor) - rank, error_tol, return_pivots must reach the kernel through each]")
 ASSUMPTIONS = ["float64 dense recomputation of the residuals R_j is the reference", "pchol.* hook events expose the pivot and the internal residual diagonal per step"]
 REQUIRED_STATS = ("pchol_calls", "pchol_iter_events", "precond_calls")
 
